@@ -316,7 +316,8 @@ Argument:
         return self.execute_experiment(runs, use_nice, use_shielding)
 
     def execute_experiment(self, runs, use_nice, use_shielding):
-        self.ui.verbose_output_info("Execute experiment: " + self._config.experiment_name + "\n")
+        self.ui.verbose_output_info(
+            "Execute experiment: " + escape_braces(str(self._config.experiment_name)) + "\n")
 
         scheduler_class = {'batch':       BatchScheduler,
                            'round-robin': RoundRobinScheduler,
